@@ -39,6 +39,17 @@ def _nested_funcs(fi):
     return out
 
 
+def _helper_funcs(ctx_p, ff):
+    """nested functions of ff plus the module-level functions of its module that are called from inside ff (a padding
+    helper may be a lambda, a nested def or a private module-level function)"""
+    out = list(_nested_funcs(ff))
+    called = {c.func.id for c in ast.walk(ff.node) if isinstance(c, ast.Call) and isinstance(c.func, ast.Name)}
+    for nm, mf in ff.module.functions.items():
+        if nm in called and mf is not ff:
+            out.append((mf, [r_.value for r_ in walk_shallow(mf.node) if isinstance(r_, ast.Return) and r_.value is not None]))
+    return out
+
+
 def _resolve_local(nf, e):
     """replace a plain local name by its single defining expression inside nf (padding = " " * ...)"""
     if isinstance(e, ast.Name) and not isinstance(nf.node, ast.Lambda):
@@ -281,12 +292,12 @@ def rule_template(ctx):
         raise AnalysisError("cannot find the two line-formatting functions in writer.get_formatter_function")
     # middle field builder: unit + blanks + right-hand item (lambda or def, padding possibly in a local)
     mid = None
-    for nf, rets in _nested_funcs(ff):
+    for nf, rets in _helper_funcs(p, ff):
         for b in rets:
-            if isinstance(b, ast.BinOp) and isinstance(b.op, ast.Add) and len(nf.params()) == 2:
+            if isinstance(b, ast.BinOp) and isinstance(b.op, ast.Add) and len(nf.params()) in (2, 3):
                 mid = (nf, b)
     if mid is None:
-        ctx.bad("WR.TEMPLATE", ff.qual + "#middle", ff, ff.node, "cannot find the middle-field builder (unit + blanks + value)")
+        ctx.undecided("WR.TEMPLATE", ff.qual + "#middle", ff, ff.node, "no separate middle-field builder (unit + blanks + value) found")
     else:
         nf, b = mid
         params = nf.params()
@@ -303,7 +314,7 @@ def rule_template(ctx):
         if not (isinstance(flat[0], ast.Name) and flat[0].id == params[0]) and not (
                 isinstance(flat[0], ast.Call) and any(isinstance(x, ast.Name) and x.id == params[0] for x in ast.walk(flat[0]))):
             pr.append("the middle field does not start with the unit")
-        if not (isinstance(flat[-1], ast.Name) and flat[-1].id == params[-1]):
+        if not (isinstance(flat[-1], ast.Name) and flat[-1].id == params[1]):
             pr.append("the middle field does not end with the right-hand item")
         pads = [e for e in flat[1:-1]]
         if not any(isinstance(e, ast.BinOp) and isinstance(e.op, ast.Mult) and any(
@@ -315,7 +326,7 @@ def rule_template(ctx):
                     pr.append("padding uses %r instead of blanks" % c.value)
         ctx.check(not pr, "WR.TEMPLATE", ff.qual + "#middle", nf, b, "middle field = unit + blanks + right-hand item", "; ".join(pr))
     # mnemonic pad: ljust
-    for nf, rets in _nested_funcs(ff):
+    for nf, rets in _helper_funcs(p, ff):
         for b in rets:
             if isinstance(b, ast.Call) and isinstance(b.func, ast.Attribute) and b.func.attr in ("ljust", "rjust", "center"):
                 ctx.check(b.func.attr == "ljust", "WR.TEMPLATE", ff.qual + "#mnemonic-pad", nf, b,
@@ -568,17 +579,28 @@ def rule_ord_table(ctx):
     for secs in table.values():
         keys |= set(secs)
     names = set()
+    names_complete = True
     for s in walk_shallow(rd.node):
-        if isinstance(s, ast.Assign) and any(isinstance(t, ast.Attribute) and t.attr == "section_name2" for t in s.targets) and isinstance(s.value, ast.Constant):
-            names.add(s.value.value)
+        if isinstance(s, ast.Assign) and any(isinstance(t, ast.Attribute) and t.attr == "section_name2" for t in s.targets):
+            if isinstance(s.value, ast.Constant):
+                names.add(s.value.value)
+            elif not (isinstance(s.value, ast.Name) and s.value.id in rd.params()):
+                names_complete = False   # e.g. taken from a dispatch table row
     fw = p.func(WRITE)
     wnames = set()
     for c in walk_shallow(fw.node):
         if isinstance(c, ast.Call) and isinstance(c.func, ast.Name) and c.func.id == "get_section_order_function" and c.args and isinstance(c.args[0], ast.Constant):
             wnames.add(c.args[0].value)
-    ctx.check(names <= keys and wnames <= keys and names == wnames, "ORD.TABLE", "ORDER_DEFINITIONS#section-names", fw, fw.node,
-              "reader and writer use the same section names %s, all keys of the table" % sorted(names),
-              "section names differ: reader %s, writer %s, table %s" % (sorted(names), sorted(wnames), sorted(keys)))
+    if not names_complete:
+        ctx.undecided("ORD.TABLE", "ORDER_DEFINITIONS#section-names", rd, rd.node, "the section names of SectionParser are not all "
+                      "literal assignments to section_name2")
+        ctx.check(names <= keys and wnames <= keys, "ORD.TABLE", "ORDER_DEFINITIONS#section-names:keys", fw, fw.node,
+                  "section names used literally by reader and writer are keys of the table", "names %s / %s are not all keys of "
+                  "ORDER_DEFINITIONS" % (sorted(names), sorted(wnames)))
+    else:
+        ctx.check(names <= keys and wnames <= keys and names == wnames, "ORD.TABLE", "ORDER_DEFINITIONS#section-names", fw, fw.node,
+                  "reader and writer use the same section names %s, all keys of the table" % sorted(names),
+                  "section names differ: reader %s, writer %s, table %s" % (sorted(names), sorted(wnames), sorted(keys)))
     ctx.floor("ORD.TABLE", 4)
 
 
